@@ -364,6 +364,45 @@ Section Fault.
       apply ofs_walk_dead_kb; try assumption. rewrite Hf0. exact Hb0.
   Qed.
 
+  (* ---- a seek that fails leaves no buffered block ---- *)
+  Lemma ofs_walk_fail_cur : forall fuel s o tg s', ofs_walk bs ofs bad fuel s o tg = (false, s') -> cur s' = 0.
+  Proof.
+    induction fuel as [|f IH]; intros s o tg s' H; [discriminate|]. cbn [ofs_walk] in H.
+    destruct (o <? tg); [|discriminate]. set (s1 := set_pind _ _) in *. destruct (pind s1 =? bs); [|apply (IH _ _ _ _ H)].
+    destruct (read_next bs ofs bad s1) as [[|] sn]; [apply (IH _ _ _ _ H)|injection H as <-; reflexivity].
+  Qed.
+
+  Lemma seek_start_fail_cur s s' : seek_start bs ofs bad s = (false, s') -> cur s' = 0.
+  Proof. intros H. apply (seek_start_fail_dead s s' H). Qed.
+
+  Lemma seek_mid_fail_cur s s' : KB s -> 0 <= pos s < fsize s -> seek_mid bs bad s = (false, s') -> cur s' = 0.
+  Proof.
+    intros K Hp. unfold seek_mid. rewrite (pos2db_spec bs Hbs (pos s) ltac:(lia)). set (k := pos s / bs).
+    pose proof (kb_cb s K) as C. pose proof C as (B & HL & _). pose proof (b_hdr _ _ _ _ _ _ B) as (_ & Htab & _).
+    assert (Hk : 0 <= k < len L) by (subst k; rewrite HL; apply (idx_in_range bs Hbs); lia).
+    assert (Hge : 2 <= nthZ L k) by (apply (b_ge2 _ _ _ _ _ _ B); apply in_or_app; left; apply (in_L_nth L k Hk)).
+    destruct (Z.ltb_spec k 72) as [H72|H72].
+    - cbn -[Z.ltb]. assert (Hcur : nthZ (h_tab (fh s)) k = nthZ L k) by (rewrite Htab; apply nthZ_subZ; lia). rewrite Hcur.
+      destruct (Z.ltb_spec (nthZ L k) 2) as [Hlt2|Hge2]; [lia|]. destruct (rd_data bs bad _ _); [discriminate|intros Hf; injection Hf as <-; reflexivity].
+    - assert (Hj : 0 <= (k - 72) / 72 < len E) by (apply (lenE_bound bs ofs key s L E k C); lia).
+      cbv zeta. cbn [fst snd]. destruct (Z.eqb_spec ((k - 72) / 72) (-1)) as [Hm|_]; [lia|].
+      set (s1 := set_ndb (set_pind (set_pinx s ((k - 72) mod 72)) (pos s mod bs)) k).
+      assert (K1 : KB s1) by (apply (kb_fields s); try reflexivity; exact K).
+      set (s1' := match cext s1 with None => set_cext s1 (Some zero_x) | Some _ => s1 end).
+      assert (K1' : KB s1').
+      { subst s1'. destruct (cext s1) eqn:Hcx; [exact K1|]. destruct K1 as (H1 & H2 & H3 & H4 & H5 & H6 & H7). unfold KB, cext_ok. cbn. repeat split; try assumption. left. reflexivity. }
+      destruct (read_ext_n bs bad s1' ((k - 72) / 72)) as [[|] sx] eqn:Hx.
+      2:{ cbn [negb]. intros Hf. injection Hf as <-. reflexivity. }
+      pose proof (read_ext_n_mono bs bad _ _ _ Hx) as Hx0.
+      rewrite (read_ext_n_ok bs ofs key s1' s1' L E ((k - 72) / 72) (kb_cb s1' K1') eq_refl eq_refl Hj) in Hx0. injection Hx0 as <-.
+      cbn -[Z.ltb enc_x subZ].
+      assert (Hcur : nthZ (x_tab (enc_x key L E ((k - 72) / 72))) (pinx s1') = nthZ L k).
+      { assert (Hpx : pinx s1' = (k - 72) mod 72) by (subst s1'; destruct (cext s1); reflexivity). rewrite Hpx. cbn [x_tab enc_x].
+        rewrite nthZ_subZ by lia. f_equal. lia. }
+      unfold cx. cbn [cext set_cext]. rewrite Hcur. destruct (Z.ltb_spec (nthZ L k) 2) as [Hlt2|Hge2]; [lia|].
+      destruct (rd_data bs bad _ _); [discriminate|intros Hf; injection Hf as <-; reflexivity].
+  Qed.
+
   (* ---- adfFileSeek to a position inside the file from a clean state that is coherent or without a buffered block, with any position field:
           what it leaves is KB; if it reports success with a buffered block, that is the block of the position ---- *)
   Definition Weak (s : hstate) : Prop := KB s /\ (cur s = 0 \/ CohT s).
@@ -372,7 +411,8 @@ Section Fault.
     KB (snd (seek_gen bs ofs bad eofk (set_pos s q) p)) /\
     (fst (seek_gen bs ofs bad eofk (set_pos s q) p) = true -> cur (snd (seek_gen bs ofs bad eofk (set_pos s q) p)) <> 0 ->
      CohT (snd (seek_gen bs ofs bad eofk (set_pos s q) p)) /\ pos (snd (seek_gen bs ofs bad eofk (set_pos s q) p)) = p
-     /\ 0 <= pind (snd (seek_gen bs ofs bad eofk (set_pos s q) p)) < bs).
+     /\ 0 <= pind (snd (seek_gen bs ofs bad eofk (set_pos s q) p)) < bs) /\
+    (fst (seek_gen bs ofs bad eofk (set_pos s q) p) = false -> cur (snd (seek_gen bs ofs bad eofk (set_pos s q) p)) = 0).
   Proof.
     intros (K & Hw) Hq Hp. pose proof K as (Kdk & Kfh & Kc & Kw & Kr & Kcx & Klen).
     assert (Kq : KB (set_pos s q)) by (apply (kb_fields s); try reflexivity; exact K).
@@ -384,7 +424,7 @@ Section Fault.
       apply andb_prop in H1. destruct H1 as (H1 & H3). apply andb_prop in H1. destruct H1 as (H1 & H2). apply Z.eqb_eq in H1.
       destruct (Z.eqb_spec (cur s) 0) as [|Hc]; [discriminate|]. destruct Hw as [Hz|Co]; [contradiction|].
       destruct Hq as [Hq|Hq]; [|contradiction]. assert (Heq : set_pos s q = s) by (apply state_ext; try reflexivity; cbn; exact Hq).
-      rewrite Heq. cbn [fst snd]. split; [exact K|]. intros _ _. split; [exact Co|]. split; [lia|].
+      rewrite Heq. cbn [fst snd]. split; [exact K|]. split; [|intros Hd; discriminate]. intros _ _. split; [exact Co|]. split; [lia|].
       destruct Co as (I & _). destruct (normal_facts bs ofs key s L E I Hc) as (_ & _ & _ & Hpi & _). destruct (Z.eqb_spec (pind s) bs); [discriminate|lia]. }
     destruct (negb (cur s =? 0) && ((if 0 <? ndb s then ndb s - 1 else 0) =? p / bs)) eqn:H2.
     { (* inside the buffered block *)
@@ -400,13 +440,14 @@ Section Fault.
         repeat match goal with |- _ /\ _ => split end; try assumption; try lia. }
       assert (R' : Repr bs s' L ct) by (apply (repr_frame bs s); try reflexivity; assumption).
       assert (Co' : CohT s') by (unfold CohT; split; [exact I'|split; [exact R'|subst s'; cbn; repeat split; assumption]]).
-      split; [apply coh_kb, Co'|]. intros _ _. split; [exact Co'|]. subst s'. cbn. split; [reflexivity|lia]. }
+      split; [apply coh_kb, Co'|]. split; [|intros Hd; discriminate]. intros _ _. split; [exact Co'|]. subst s'. cbn. split; [reflexivity|lia]. }
     assert (Hset : (if mw s && chg s then set_chg (fio_flush bs ofs (set_pos s q)) false else set_pos s q) = set_pos s q) by (rewrite Kc, andb_false_r; reflexivity).
     rewrite Hset.
     destruct (Z.eqb_spec p 0) as [H0|H0].
     { (* to the start *)
-      pose proof (seek_start_kb (set_pos s q) Kq) as K0. split; [exact K0|]. intros Hok Hcur.
-      destruct (seek_start bs ofs bad (set_pos s q)) as [[|] s0] eqn:Hss; [|discriminate]. cbn [fst snd] in *.
+      pose proof (seek_start_kb (set_pos s q) Kq) as K0. split; [exact K0|].
+      destruct (seek_start bs ofs bad (set_pos s q)) as [[|] s0] eqn:Hss; cbn [fst snd] in *; [|split; [intros Hd; discriminate|intros _; apply (seek_start_fail_cur _ _ Hss)]].
+      split; [|intros Hd; discriminate]. intros Hok Hcur.
       apply seek_start_mono in Hss. pose proof Kq as (_ & _ & _ & _ & _ & Qcx & Qlen).
       destruct (seek_start_cb bs ofs key Hbs (set_pos s q) L E (kb_cb _ Kq) Qcx Qlen) as (s5 & Hs5 & I5 & P5 & C5 & D5 & F5 & W5 & M5 & N5).
       rewrite Hss in Hs5. injection Hs5 as <-. destruct (N5 ltac:(change (fsize (set_pos s q)) with (fsize s); lia)) as (N1 & N2 & N3).
@@ -417,13 +458,25 @@ Section Fault.
     change (set_pos (set_pos s q) p) with (set_pos s p).
     change (pos (set_pos s p)) with p. change (fsize (set_pos s p)) with (fsize s). destruct (Z.eqb_spec p (fsize s)); [lia|].
     assert (Kp : KB (set_pos s p)) by (apply (kb_fields s); try reflexivity; exact K).
-    split.
-    - unfold seek_fb. pose proof (seek_mid_kb (set_pos s p) Kp ltac:(change (pos (set_pos s p)) with p; change (fsize (set_pos s p)) with (fsize s); lia)) as K3.
-      destruct (negb (fst (seek_mid bs bad (set_pos s p))) && ofs); [|exact K3].
+    pose proof (seek_mid_kb (set_pos s p) Kp ltac:(change (pos (set_pos s p)) with p; change (fsize (set_pos s p)) with (fsize s); lia)) as K3.
+    split; [|split].
+    - unfold seek_fb. destruct (negb (fst (seek_mid bs bad (set_pos s p))) && ofs); [|exact K3].
       apply seek_ofs_kb; [exact K3|]. rewrite (kb_fsize _ K3), <- (kb_fsize s K). lia.
     - intros Hok Hcur.
       destruct (seek_fb bs ofs bad eofk (seek_mid bs bad (set_pos s p)) p) as [[|] s'] eqn:Hfb; [|discriminate]. cbn [fst snd] in *.
       apply (seek_inside_faulty eofk (set_pos s p) p s' Kp eq_refl ltac:(change (fsize (set_pos s p)) with (fsize s); lia) Hfb Hcur).
+    - (* a failure: the table-driven seek failed (no buffered block), and so did the fallback if there was one *)
+      unfold seek_fb. destruct (seek_mid bs bad (set_pos s p)) as [[|] s3] eqn:Hm; cbn [fst snd negb andb] in *; [intros Hd; discriminate|].
+      pose proof (seek_mid_fail_cur (set_pos s p) s3 Kp ltac:(change (pos (set_pos s p)) with p; change (fsize (set_pos s p)) with (fsize s); lia) Hm) as Hc3.
+      destruct (Bool.bool_dec ofs true) as [Ho|Ho].
+      2:{ apply Bool.not_true_is_false in Ho. assert (Hif : forall (A : Type) (a b : A), (if ofs then a else b) = b) by (intros; rewrite Ho; reflexivity).
+          rewrite !Hif. cbn [fst snd]. intros _. exact Hc3. }
+      assert (Hif : forall (A : Type) (a b : A), (if ofs then a else b) = a) by (intros; rewrite Ho; reflexivity). rewrite !Hif. clear Hif.
+      unfold seek_ofs. set (s0 := snd (seek_start bs ofs bad s3)).
+      assert (Hf0 : fsize s0 = fsize s) by (rewrite (kb_fsize s0 (seek_start_kb s3 K3)), <- (kb_fsize s K); reflexivity).
+      rewrite Hf0. replace (Z.min p (fsize s)) with p by lia. destruct (Z.eqb_spec p (fsize s)); [lia|].
+      destruct (ofs_walk bs ofs bad (Z.to_nat (p / bs + 2)) s0 0 p) as [[|] sw] eqn:Hwk; cbn [fst snd]; [intros Hd; discriminate|].
+      intros _. apply (ofs_walk_fail_cur _ _ _ _ _ Hwk).
   Qed.
 
   (* ---- adfFileSeekEOF_: seek to size - 1, then step on to the end ---- *)
@@ -451,16 +504,79 @@ Section Fault.
   Theorem seek_eof_faulty s q : Weak s -> (q = pos s \/ q <> fsize s - 1) -> 0 < fsize s ->
     KB (snd (seek_eof bs ofs bad (set_pos s q))) /\
     (fst (seek_eof bs ofs bad (set_pos s q)) = true -> cur (snd (seek_eof bs ofs bad (set_pos s q))) <> 0 ->
-     CohT (snd (seek_eof bs ofs bad (set_pos s q))) /\ pos (snd (seek_eof bs ofs bad (set_pos s q))) = fsize s).
+     CohT (snd (seek_eof bs ofs bad (set_pos s q))) /\ pos (snd (seek_eof bs ofs bad (set_pos s q))) = fsize s) /\
+    (fst (seek_eof bs ofs bad (set_pos s q)) = false -> cur (snd (seek_eof bs ofs bad (set_pos s q))) = 0).
   Proof.
     intros W Hq Hsz. unfold seek_eof. change (fsize (set_pos s q)) with (fsize s). destruct (Z.eqb_spec (fsize s) 0); [lia|].
-    destruct (seek_gen_inside (fun u => (false, u)) s q (fsize s - 1) W Hq ltac:(lia)) as (Ki & Hi).
+    destruct (seek_gen_inside (fun u => (false, u)) s q (fsize s - 1) W Hq ltac:(lia)) as (Ki & Hi & Hfail).
     destruct (seek_gen bs ofs bad (fun u => (false, u)) (set_pos s q) (fsize s - 1)) as [[|] si] eqn:Hg; cbn [fst snd negb] in *.
     - assert (Hfi : fsize si = fsize s) by (rewrite (kb_fsize si Ki); destruct W as (K & _); rewrite (kb_fsize s K); reflexivity).
-      split; [apply (kb_fields si); try reflexivity; exact Ki|]. intros _ Hc. cbn [cur set_pind set_pos] in Hc.
+      split; [apply (kb_fields si); try reflexivity; exact Ki|]. split; [|intros Hd; discriminate]. intros _ Hc. cbn [cur set_pind set_pos] in Hc.
       destruct (Hi eq_refl Hc) as (Co & Pi & Pd). rewrite <- Hfi in Pi.
       split; [apply (eof_adjust si Co Hc Pi Pd); lia|]. cbn. exact Hfi.
-    - split; [exact Ki|]. intros Hd. discriminate.
+    - split; [exact Ki|]. split; [intros Hd; discriminate|intros _; apply Hfail; reflexivity].
+  Qed.
+
+  (* what a seek started on a failed state's leftovers needs: the state adfFileSeekStart_ leaves is Weak again *)
+  Lemma seek_start_weak s : KB s -> Weak (snd (seek_start bs ofs bad s)).
+  Proof.
+    intros K. split; [apply seek_start_kb, K|]. destruct (seek_start bs ofs bad s) as [[|] s0] eqn:Hss; cbn [snd].
+    - right. apply seek_start_mono in Hss. pose proof K as (Rdk & Rfh & Rc & Rw & Rr & Rcx & Rlen).
+      destruct (seek_start_cb bs ofs key Hbs s L E (kb_cb s K) Rcx Rlen) as (s5 & Hs5 & I5 & P5 & C5 & D5 & F5 & W5 & M5 & N5).
+      rewrite Hss in Hs5. injection Hs5 as <-.
+      assert (R0 : Repr bs s0 L ct) by (apply (repr_clean bs ofs key Hbs t s0 L E ct It Hct I5 C5); [congruence|congruence|exact Rt]).
+      unfold CohT. split; [exact I5|]. split; [exact R0|]. repeat split; congruence.
+    - left. apply (seek_start_fail_dead s s0 Hss).
+  Qed.
+
+  (* ---- adfFileSeek from any clean state that is coherent or without a buffered block, to any position: what it leaves is KB - so the next
+          seek can recover - and a success with a buffered block is coherent at the position ---- *)
+  Theorem fio_seek_weak s p : Weak s -> 0 <= p -> 0 < fsize s ->
+    KB (snd (fio_seek bs ofs bad s p)) /\
+    (fst (fio_seek bs ofs bad s p) = true -> cur (snd (fio_seek bs ofs bad s p)) <> 0 ->
+     CohT (snd (fio_seek bs ofs bad s p)) /\ pos (snd (fio_seek bs ofs bad s p)) = Z.min p (fsize s)) /\
+    (fst (fio_seek bs ofs bad s p) = false -> cur (snd (fio_seek bs ofs bad s p)) = 0).
+  Proof.
+    intros W Hp Hsz. pose proof W as (K & Hw). pose proof K as (Kdk & Kfh & Kc & Kw & Kmr & Kcx & Klen).
+    assert (Heq : set_pos s (pos s) = s) by (apply state_ext; reflexivity).
+    destruct (Z.ltb_spec p (fsize s)) as [Hlt|Hge].
+    { destruct (seek_gen_inside (seek_eof bs ofs bad) s (pos s) p W ltac:(left; reflexivity) ltac:(lia)) as (H1 & H2 & H3).
+      rewrite Heq in H1, H2, H3. unfold fio_seek. split; [exact H1|]. split; [|exact H3]. intros Hok Hc. destruct (H2 Hok Hc) as (Co & P & _). split; [exact Co|lia]. }
+    replace (Z.min p (fsize s)) with (fsize s) by lia.
+    unfold fio_seek, seek_gen.
+    destruct ((pos s =? p) && negb (cur s =? 0) && negb (pind s =? bs)) eqn:H1.
+    { apply andb_prop in H1. destruct H1 as (H1 & _). apply andb_prop in H1. destruct H1 as (H1 & H2). apply Z.eqb_eq in H1.
+      destruct (Z.eqb_spec (cur s) 0) as [|Hc]; [discriminate|]. destruct Hw as [Hz|Co]; [contradiction|]. cbn [fst snd]. split; [exact K|]. split; [|intros Hd; discriminate]. intros _ _. split; [exact Co|].
+      destruct Co as (I & _). destruct (normal_facts bs ofs key s L E I Hc) as (_ & _ & _ & _ & Hle). lia. }
+    destruct (negb (cur s =? 0) && ((if 0 <? ndb s then ndb s - 1 else 0) =? p / bs)) eqn:H2.
+    { (* the end lies in the buffered block: no device access, the very computation of the fault-free seek *)
+      apply andb_prop in H2. destruct H2 as (H2a & H2b). destruct (Z.eqb_spec (cur s) 0) as [|Hc]; [discriminate|]. destruct Hw as [Hz|Co]; [contradiction|].
+      destruct Co as (I & R & Cc & Cd & Cf & Cw & Cr).
+      destruct (fio_seek_ok bs ofs key Hbs s L E ct p I R Hp) as (s1 & Hs1 & I1 & R1 & P1 & F1 & W1 & M1).
+      assert (Hcz : (cur s =? 0) = false) by (destruct (Z.eqb_spec (cur s) 0); [contradiction|reflexivity]).
+      unfold fio_seek, seek_gen in Hs1. rewrite Hcz in Hs1. rewrite H1 in Hs1. cbn [negb andb] in Hs1.
+      rewrite H2b in Hs1. injection Hs1 as Hs1. rewrite Hs1. cbn [fst snd].
+      assert (Co1 : CohT s1).
+      { unfold CohT. split; [exact I1|]. split; [exact R1|]. rewrite <- Hs1. cbn. repeat split; assumption. }
+      split; [apply coh_kb, Co1|]. split; [|intros Hd; discriminate]. intros _ _. split; [exact Co1|]. rewrite P1. lia. }
+    rewrite Kc, andb_false_r.
+    destruct (Z.eqb_spec p 0); [lia|]. cbv zeta. replace (Z.min p (fsize s)) with (fsize s) by lia.
+    change (pos (set_pos s (fsize s))) with (fsize s). change (fsize (set_pos s (fsize s))) with (fsize s). rewrite Z.eqb_refl.
+    destruct (seek_eof_faulty s (fsize s) W ltac:(right; lia) Hsz) as (Kr & Hr & Hfr).
+    destruct (seek_eof bs ofs bad (set_pos s (fsize s))) as [[|] sr] eqn:Hse; cbn [fst snd] in *.
+    - unfold seek_fb. cbn [fst snd negb andb]. split; [exact Kr|]. split; [|intros Hd; discriminate]. intros _ Hc. exact (Hr eq_refl Hc).
+    - unfold seek_fb. cbn [fst snd negb andb].
+      destruct (Bool.bool_dec ofs true) as [Ho|Ho].
+      2:{ apply Bool.not_true_is_false in Ho. assert (Hif : forall (A : Type) (a b : A), (if ofs then a else b) = b) by (intros; rewrite Ho; reflexivity).
+          rewrite !Hif. cbn [fst snd]. split; [exact Kr|]. split; [intros Hd; discriminate|intros _; apply Hfr; reflexivity]. }
+      assert (Hif : forall (A : Type) (a b : A), (if ofs then a else b) = a) by (intros; rewrite Ho; reflexivity). rewrite !Hif. clear Hif.
+      unfold seek_ofs. pose proof (seek_start_weak sr Kr) as W0. set (s0 := snd (seek_start bs ofs bad sr)) in *.
+      pose proof W0 as (K0 & _).
+      assert (Hf0 : fsize s0 = fsize s) by (rewrite (kb_fsize s0 K0), <- (kb_fsize s K); reflexivity).
+      rewrite Hf0. replace (Z.min p (fsize s)) with (fsize s) by lia. rewrite Z.eqb_refl.
+      assert (Heq0 : set_pos s0 (pos s0) = s0) by (apply state_ext; reflexivity).
+      destruct (seek_eof_faulty s0 (pos s0) W0 ltac:(left; reflexivity) ltac:(lia)) as (Kr0 & Hr0 & Hfr0). rewrite Heq0, Hf0 in *.
+      split; [exact Kr0|]. split; [exact Hr0|exact Hfr0].
   Qed.
 End Fault.
 
@@ -530,7 +646,7 @@ Section Top.
     change (pos (set_pos t (fsize s))) with (fsize s) in H. change (fsize (set_pos t (fsize s))) with (fsize t) in H. rewrite Hft, Z.eqb_refl in H.
     assert (Cot : CohT bs ofs key L E ct t t) by (unfold CohT; split; [exact It|split; [exact Rt|repeat split; assumption]]).
     assert (Wt : Weak bs ofs key L E ct t t) by (split; [apply (kb_t bs ofs key L E t It Hct)|right; exact Cot]).
-    destruct (seek_eof_faulty bs ofs key Hbs bad L E ct t It Hct Rt t (fsize s) Wt ltac:(right; lia) ltac:(lia)) as (Kr & Hr).
+    destruct (seek_eof_faulty bs ofs key Hbs bad L E ct t It Hct Rt t (fsize s) Wt ltac:(right; lia) ltac:(lia)) as (Kr & Hr & _).
     destruct (seek_eof bs ofs bad (set_pos t (fsize s))) as [[|] sr] eqn:Hse; cbn [fst snd] in *.
     - (* the first attempt succeeded *)
       unfold seek_fb in H. cbn [fst negb andb] in H. injection H as <-.
@@ -555,7 +671,7 @@ Section Top.
       assert (Hf0 : fsize s0 = fsize s) by (rewrite (kb_fsize bs key L E t s0 K0); exact Hft).
       rewrite Hf0 in H'. replace (Z.min p (fsize s)) with (fsize s) in H' by lia. rewrite Z.eqb_refl in H'.
       assert (Heq : set_pos s0 (pos s0) = s0) by (apply state_ext; reflexivity).
-      destruct (seek_eof_faulty bs ofs key Hbs bad L E ct t It Hct Rt s0 (pos s0) W0 ltac:(left; reflexivity) ltac:(lia)) as (_ & Hr0).
+      destruct (seek_eof_faulty bs ofs key Hbs bad L E ct t It Hct Rt s0 (pos s0) W0 ltac:(left; reflexivity) ltac:(lia)) as (_ & Hr0 & _).
       rewrite Heq, H' in Hr0. cbn [fst snd] in Hr0.
       destruct (Hr0 eq_refl Hcur) as ((I' & R' & _) & P'). split; [exact I'|]. split; [exact R'|lia].
   Qed.
@@ -583,3 +699,184 @@ Section Top.
       exists s'', m. rewrite P' in Hr, Hm. rewrite Hf in Hm. subst r. split; [exact Hrd|exact Hm].
   Qed.
 End Top.
+
+(* ---- any history of reads and seeks under device read faults ---- *)
+Section Hist.
+  Variable bs : Z.
+  Variable ofs : bool.
+  Variable key : Z.
+  Hypothesis Hbs : 0 < bs.
+  Variables L E ct : list Z.
+
+  (* what a handle can be after such a history: coherent; or clean, with the volume and header of a coherent clean state of the same file and
+     content, and either no buffered block or a coherent cursor *)
+  Definition Hst (s : hstate) : Prop :=
+    (Inv bs ofs key s L E /\ Repr bs s L ct) \/
+    (exists t, Inv bs ofs key t L E /\ chg t = false /\ Repr bs t L ct /\ Weak bs ofs key L E ct t s).
+
+  Lemma hst_fsize s : Hst s -> fsize s = len ct.
+  Proof.
+    intros [(I & (Hl & _))|(t & It & Hct & (Hl & _) & (K & _))]; [symmetry; exact Hl|].
+    rewrite (kb_fsize bs key L E t s K). symmetry. exact Hl.
+  Qed.
+
+  Lemma seek_settle bad eofk s p : Inv bs ofs key s L E ->
+    (pos s =? p) && negb (cur s =? 0) && negb (pind s =? bs) = false ->
+    negb (cur s =? 0) && ((if 0 <? ndb s then ndb s - 1 else 0) =? p / bs) = false ->
+    seek_gen bs ofs bad eofk s p = seek_gen bs ofs bad eofk (settle bs ofs s) p.
+  Proof.
+    intros I H1 H2. destruct (settle_ok bs ofs key Hbs s L E I) as (_ & Hct & (Spos & _ & Spind & Sndb & Scur & _ & _ & Smw & _) & _).
+    unfold seek_gen. rewrite Spos, Scur, Spind, Sndb, H1, H2, Hct, andb_false_r. reflexivity.
+  Qed.
+
+  Theorem hst_seek bad s p : Hst s -> 0 <= p -> 0 < len ct ->
+    Hst (snd (fio_seek bs ofs bad s p)) /\
+    (fst (fio_seek bs ofs bad s p) = true -> cur (snd (fio_seek bs ofs bad s p)) <> 0 -> pos (snd (fio_seek bs ofs bad s p)) = Z.min p (len ct)).
+  Proof.
+    intros H Hp Hsz. pose proof (hst_fsize s H) as Hfs.
+    assert (Gen : forall t u, Inv bs ofs key t L E -> chg t = false -> Repr bs t L ct -> Weak bs ofs key L E ct t u ->
+              Hst (snd (fio_seek bs ofs bad u p)) /\
+              (fst (fio_seek bs ofs bad u p) = true -> cur (snd (fio_seek bs ofs bad u p)) <> 0 -> pos (snd (fio_seek bs ofs bad u p)) = Z.min p (len ct))).
+    { intros t u It Hct Rt W. pose proof W as (Ku & _).
+      assert (Hfu : fsize u = len ct) by (rewrite (kb_fsize bs key L E t u Ku); destruct Rt as (Hl & _); symmetry; exact Hl).
+      destruct (fio_seek_weak bs ofs key Hbs bad L E ct t It Hct Rt u p W Hp ltac:(lia)) as (K' & Hs' & Hf').
+      destruct (fio_seek bs ofs bad u p) as [ok u'] eqn:Hsk. cbn [fst snd] in *. split.
+      - right. exists t. split; [exact It|]. split; [exact Hct|]. split; [exact Rt|]. split; [exact K'|].
+        destruct (Z.eq_dec (cur u') 0) as [Hc|Hc]; [left; exact Hc|]. right. destruct ok; [apply (Hs' eq_refl Hc)|exfalso; apply Hc, Hf'; reflexivity].
+      - intros Hok Hc. destruct (Hs' Hok Hc) as (_ & P'). rewrite P', Hfu. reflexivity. }
+    destruct H as [(I & R)|(t & It & Hct & Rt & W)]; [|apply (Gen t s It Hct Rt W)].
+    unfold fio_seek.
+    destruct ((pos s =? p) && negb (cur s =? 0) && negb (pind s =? bs)) eqn:H1;
+      [|destruct (negb (cur s =? 0) && ((if 0 <? ndb s then ndb s - 1 else 0) =? p / bs)) eqn:H2].
+    3:{ (* the general case: flush, then the seek of a clean coherent state *)
+        rewrite (seek_settle bad (seek_eof bs ofs bad) s p I H1 H2).
+        destruct (settle_ok bs ofs key Hbs s L E I) as (It & Hct & (_ & _ & _ & _ & _ & _ & Sfh & _) & Htr).
+        set (t := settle bs ofs s) in *.
+        assert (Rt : Repr bs t L ct).
+        { apply (repr_same bs Hbs s t L ct); [unfold fsize; rewrite Sfh; reflexivity|destruct I as (_ & HL & _); exact HL|exact Htr|exact R]. }
+        apply (Gen t t It Hct Rt). split; [apply (kb_t bs ofs key L E t It Hct)|]. right. unfold CohT. split; [exact It|]. split; [exact Rt|]. repeat split; assumption. }
+    (* the two early returns: no device access, the computation of the fault-free seek *)
+    all: destruct (fio_seek_ok bs ofs key Hbs s L E ct p I R Hp) as (s1 & Hs1 & I1 & R1 & P1 & _);
+         unfold fio_seek, seek_gen in Hs1; unfold seek_gen; rewrite H1 in *; try rewrite H2 in *.
+    - injection Hs1 as Hs1. cbn [fst snd]. rewrite Hs1. split; [left; split; assumption|]. intros _ _. rewrite P1, Hfs. reflexivity.
+    - injection Hs1 as Hs1. cbn [fst snd]. rewrite Hs1. split; [left; split; assumption|]. intros _ _. rewrite P1, Hfs. reflexivity.
+  Qed.
+
+  (* adfFileRead under faults from a coherent state: the bytes delivered are a prefix of the true ones, and what is left is a state of Hst *)
+  Lemma read_loop_hst bad : forall fuel s n, Inv bs ofs key s L E -> Repr bs s L ct -> cur s <> 0 -> 0 <= n -> pos s + n <= fsize s ->
+    exists s' r m, read_loop bs ofs bad fuel s n = (s', r) /\ 0 <= m <= n /\ r = sub ct (pos s) m /\ len r = m /\ Hst s'.
+  Proof.
+    induction fuel as [|fuel IH]; intros s n I R Hc Hn Hle.
+    - exists s, [], 0. repeat match goal with |- _ /\ _ => split end; try reflexivity; try lia. left. split; assumption.
+    - cbn [read_loop]. destruct (Z.leb_spec n 0) as [Hz|Hz].
+      { exists s, [], 0. repeat match goal with |- _ /\ _ => split end; try reflexivity; try lia. left. split; assumption. }
+      assert (Hpos0 : 0 <= pos s) by (destruct (normal_facts bs ofs key s L E I Hc) as (_ & Hnn & Hp & Hpi & _); nia).
+      assert (Hlct : len ct = fsize s) by (destruct R as (Hl & _); exact Hl).
+      change (if mw s && chg s then set_chg (fio_flush bs ofs s) false else s) with (settle bs ofs s).
+      destruct (Z.eqb_spec (pind s) bs) as [Hb|Hb].
+      + (* the next block is needed *)
+        destruct (settle_ok bs ofs key Hbs s L E I) as (It & Hct & (Spos & Spinx & Spind & Sndb & Scur & Scext & Sfh & Smw & Smr & Sby & Snx) & Htr).
+        set (t := settle bs ofs s) in *.
+        assert (Rt : Repr bs t L ct).
+        { apply (repr_same bs Hbs s t L ct); [unfold fsize; rewrite Sfh; reflexivity|destruct I as (_ & HL & _); exact HL|exact Htr|exact R]. }
+        assert (Hft : fsize t = fsize s) by (unfold fsize; rewrite Sfh; reflexivity).
+        assert (Hct0 : cur t <> 0) by (rewrite Scur; exact Hc).
+        assert (Hlt : pos t < fsize t) by (rewrite Spos, Hft; lia).
+        pose proof (ndb_lt_len bs ofs key Hbs t L E It Hct0 ltac:(rewrite Spind; exact Hb) Hlt) as Hnl.
+        destruct (normal_facts bs ofs key t L E It Hct0) as (_ & Hnn1 & _).
+        assert (Hcur1 : ext_cursor key t L E (ndb t - 1) /\ (ofs = true -> 1 <= ndb t -> d_next (cdata t) = nthZ L (ndb t))).
+        { destruct It as (_ & _ & [(_ & Hz0 & _)|(_ & _ & _ & _ & _ & _ & _ & Hnx & Hxc)]); [contradiction|]. split; [exact Hxc|]. intros Ho _. apply Hnx; assumption. }
+        pose proof (read_next_kb bs ofs key bad L E t It Hct t (kb_t bs ofs key L E t It Hct) ltac:(lia) (proj1 Hcur1) (proj2 Hcur1)) as Kn.
+        destruct (read_next bs ofs bad t) as [[|] sn] eqn:Hrn; cbn [snd] in Kn.
+        * (* fetched: the fault-free fetch *)
+          pose proof (read_next_mono bs ofs bad _ _ Hrn) as Hrn0.
+          destruct (advance_ok bs ofs key Hbs s L E ct I R Hc Hb ltac:(lia)) as (sn0 & Hrn1 & I1 & R1 & P1 & C1 & Pi1 & F1 & W1 & M1 & _).
+          fold t in Hrn1. rewrite Hrn0 in Hrn1. injection Hrn1 as <-. cbn [negb].
+          set (s1 := set_chg (set_pind sn 0) false) in *. clearbody s1.
+          set (size := Z.min n (bs - pind s1)).
+          assert (Hsz : 0 < size <= n /\ pind s1 + size <= bs) by (subst size; rewrite Pi1; lia).
+          set (s2 := set_pind (set_pos s1 (pos s1 + size)) (pind s1 + size)).
+          assert (I2 : Inv bs ofs key s2 L E).
+          { destruct I1 as (B1 & HL1 & C1'). split; [|split].
+            - apply (base_frame bs ofs key s1); try reflexivity. assumption.
+            - exact HL1.
+            - destruct C1' as [(_ & Hz0 & _)|(Hcu & Hnn & Hp & Hpi & Hps & Hlen & Hcl & Hnx & Hxc)]; [contradiction|].
+              right. subst s2. unfold fsize, ext_cursor in *. simpl. repeat match goal with |- _ /\ _ => split end; try assumption; try lia.
+              rewrite F1. unfold fsize in Hle. lia. }
+          assert (R2 : Repr bs s2 L ct) by (apply (repr_frame bs s1); try reflexivity; assumption).
+          destruct (IH s2 (n - size) I2 R2 C1 ltac:(lia)) as (s3 & r & m & Hrl & Hm & Hr & Hlr & H3).
+          { subst s2. unfold fsize in *. simpl. rewrite F1. lia. }
+          fold size. fold s2. rewrite Hrl. exists s3, (sub (d_bytes (cdata s1)) (pind s1) size ++ r), (size + m).
+          rewrite (chunk_ok bs ofs key Hbs s1 L E ct size I1 R1 C1) by (unfold fsize in *; rewrite ?F1; lia).
+          repeat match goal with |- _ /\ _ => split end; try reflexivity; try lia; try exact H3.
+          -- rewrite Hr. subst s2. simpl. rewrite P1. rewrite sub_app by lia. reflexivity.
+          -- rewrite len_app, Hlr. rewrite len_sub by lia. lia.
+        * (* the fetch failed: nothing more is delivered; the handle has no buffered block *)
+          cbn [negb]. exists (set_cur sn 0), [], 0. repeat match goal with |- _ /\ _ => split end; try reflexivity; try lia.
+          right. exists t. split; [exact It|]. split; [exact Hct|]. split; [exact Rt|]. split; [|left; reflexivity].
+          apply (kb_fields bs key L E t sn); try reflexivity. exact Kn.
+      + (* bytes of the buffered block *)
+        cbn [negb]. destruct (normal_facts bs ofs key s L E I Hc) as (_ & _ & _ & Hpi & _).
+        set (size := Z.min n (bs - pind s)).
+        assert (Hsz : 0 < size <= n /\ pind s + size <= bs) by (subst size; lia).
+        set (s2 := set_pind (set_pos s (pos s + size)) (pind s + size)).
+        assert (I2 : Inv bs ofs key s2 L E).
+        { destruct I as (B1 & HL1 & C1'). split; [|split].
+          - apply (base_frame bs ofs key s); try reflexivity. assumption.
+          - exact HL1.
+          - destruct C1' as [(_ & Hz0 & _)|(Hcu & Hnn & Hp & Hpi' & Hps & Hlen & Hcl & Hnx & Hxc)]; [contradiction|].
+            right. subst s2. unfold fsize, ext_cursor in *. cbn. repeat match goal with |- _ /\ _ => split end; try assumption; try lia. }
+        assert (R2 : Repr bs s2 L ct) by (apply (repr_frame bs s); try reflexivity; assumption).
+        destruct (IH s2 (n - size) I2 R2 Hc ltac:(lia)) as (s3 & r & m & Hrl & Hm & Hr & Hlr & H3).
+        { subst s2. unfold fsize in *. cbn. lia. }
+        fold size. fold s2. rewrite Hrl. exists s3, (sub (d_bytes (cdata s)) (pind s) size ++ r), (size + m).
+        rewrite (chunk_ok bs ofs key Hbs s L E ct size I R Hc) by lia.
+        repeat match goal with |- _ /\ _ => split end; try reflexivity; try lia; try exact H3.
+        * rewrite Hr. subst s2. cbn. rewrite sub_app by lia. reflexivity.
+        * rewrite len_app, Hlr. rewrite len_sub by lia. lia.
+  Qed.
+
+  Theorem hst_read bad s n : Hst s -> 0 <= n ->
+    Hst (fst (fio_read bs ofs bad s n)) /\ exists m, snd (fio_read bs ofs bad s n) = sub ct (pos s) m /\ 0 <= m <= n.
+  Proof.
+    intros H Hn.
+    assert (Gen : Inv bs ofs key s L E -> Repr bs s L ct -> Hst (fst (fio_read bs ofs bad s n)) /\ exists m, snd (fio_read bs ofs bad s n) = sub ct (pos s) m /\ 0 <= m <= n).
+    { intros I R. pose proof I as (B & HL & C). pose proof (b_size _ _ _ _ _ _ B) as Hsz.
+      assert (Hps : 0 <= pos s <= fsize s) by (destruct C as [(Hz & _ & Hp & _)|(_ & Hnn & Hp & Hpi & Hle & _)]; [lia|nia]).
+      unfold fio_read, at_eof.
+      destruct (negb (mr s) || (n =? 0) || (fsize s =? 0) || (pos s =? fsize s) || (cur s =? 0)) eqn:Hg.
+      - cbn [fst snd]. split; [left; split; assumption|]. exists 0. split; [reflexivity|lia].
+      - repeat (apply orb_false_elim in Hg; destruct Hg as (Hg & ?)). destruct (Z.eqb_spec (cur s) 0) as [|Hc]; [discriminate|].
+        destruct (Z.eqb_spec n 0); [discriminate|]. destruct (Z.eqb_spec (pos s) (fsize s)); [discriminate|].
+        set (n' := if fsize s <? pos s + n then fsize s - pos s else n).
+        assert (Hn' : 0 < n' <= n /\ pos s + n' <= fsize s) by (subst n'; destruct (Z.ltb_spec (fsize s) (pos s + n)); lia).
+        destruct (read_loop_hst bad (Z.to_nat (n' / bs + 2)) s n' I R Hc ltac:(lia) ltac:(lia)) as (s' & r & m & Hrl & Hm & Hr & _ & H').
+        rewrite Hrl. cbn [fst snd]. split; [exact H'|]. exists m. split; [exact Hr|lia]. }
+    destruct H as [(I & R)|(t & It & Hct & Rt & (K & [Hc|Co]))]; [apply Gen; assumption| |destruct Co as (I & R & _); apply Gen; assumption].
+    unfold fio_read. rewrite Hc. cbn [Z.eqb]. rewrite !orb_true_r. cbn [fst snd].
+    split; [right; exists t; split; [exact It|split; [exact Hct|split; [exact Rt|split; [exact K|left; exact Hc]]]]|]. exists 0. split; [reflexivity|lia].
+  Qed.
+  (* ---- the history theorem: any sequence of reads and seeks, each call under its own arbitrary set of unreadable blocks ---- *)
+  Inductive rop := RRead (bad : Z -> bool) (n : Z) | RSeek (bad : Z -> bool) (p : Z).
+  Definition rop_ok (o : rop) : Prop := match o with RRead _ n => 0 <= n | RSeek _ p => 0 <= p end.
+
+  (* the reads of a history: (position before the call, bytes delivered) *)
+  Fixpoint run_r (s : hstate) (ops : list rop) : hstate * list (Z * list Z) :=
+    match ops with
+    | [] => (s, [])
+    | RRead bad n :: r => let '(s1, bytes) := fio_read bs ofs bad s n in let '(s2, tr) := run_r s1 r in (s2, (pos s, bytes) :: tr)
+    | RSeek bad p :: r => run_r (snd (fio_seek bs ofs bad s p)) r
+    end.
+
+  Theorem hst_history : forall ops s, Hst s -> 0 < len ct -> Forall rop_ok ops ->
+    Hst (fst (run_r s ops)) /\ Forall (fun e => exists m, snd e = sub ct (fst e) m) (snd (run_r s ops)).
+  Proof.
+    induction ops as [|o ops IH]; intros s H Hsz Hok; [split; [exact H|constructor]|].
+    inversion Hok as [|? ? Ho Hok']; subst. destruct o as [bad n|bad p]; cbn [run_r rop_ok] in *.
+    - destruct (hst_read bad s n H Ho) as (H1 & m & Hr & _).
+      destruct (fio_read bs ofs bad s n) as (s1, bytes). cbn [fst snd] in *.
+      destruct (IH s1 H1 Hsz Hok') as (H2 & Htr). destruct (run_r s1 ops) as (s2, tr). cbn [fst snd] in *.
+      split; [exact H2|]. constructor; [exists m; exact Hr|exact Htr].
+    - destruct (hst_seek bad s p H Ho Hsz) as (H1 & _). apply (IH _ H1 Hsz Hok').
+  Qed.
+End Hist.
